@@ -1087,7 +1087,10 @@ def unit_response(ccn, mode, enc=False):
 
     L0 = layout()
     reg, areas = registry()
-    label = f"WALK/response/{ccn or 'no-code'}{'/encrypted' if enc else ''}/{mode}"
+    absent = ccn == "<absent>"  # no command code given at all (a response on its own; in a stream: the command's code was never decoded)
+    if absent:
+        ccn = None
+    label = f"WALK/response/{'absent-code' if absent else (ccn or 'no-code')}{'/encrypted' if enc else ''}/{mode}"
     u = UnitResult(label)
     u.functions = ["tpmstream.io.binary.marshal:process_response"]
     contract = ProcessContract(L0["primitives"], min_size=min_size)
@@ -1101,6 +1104,8 @@ def unit_response(ccn, mode, enc=False):
     def run(ctx):
         if ccn:
             cc = cc_member(ccn)
+        elif absent:
+            cc = None
         else:
             # a command code outside the table (an integer that is no TPM_CC member)
             vals = [c["cc"] for c in L0["commands"].values()]
@@ -1132,6 +1137,9 @@ def unit_response(ccn, mode, enc=False):
                     continue  # failed response: header only
                 want = {"path": sub(path, name), "size_constraints": L}
                 if f["type"] == "Any":
+                    if absent:
+                        # the layout is unknowable: a value error about the command code, in both modes
+                        return out(("raise-class", "ValueConstraintViolatedError"))
                     if ccn is None:
                         return out(("raise-class", "ValueConstraintViolatedError", {"tpm_type": reg["TPM_CC"], "valid_values": ("values", (reg["TPM_CC"],)), "value": typed_int(cc)}))
                     want["type"] = areas[("rsp_handles" if name == "handles" else "rsp_params", ccn)]
